@@ -3,7 +3,7 @@
     Decoding of cases and encoding of results is Gallina, so it is the same code
     in both paths. *)
 From Coq Require Import String.
-From Cvg Require Import Base Cli.
+From Cvg Require Import Base Cli Re Unicode Matcher.
 Open Scope N_scope.
 
 Definition sx_str (s : str) : sexp := Atom s.
@@ -93,12 +93,72 @@ Definition case_history (l : list sexp) : sexp :=
   | _ => sx_err "history"
   end.
 
+(** (ident pattern ident exact) *)
+Definition case_ident (l : list sexp) : sexp :=
+  match l with
+  | [Atom p; Atom i; ex] =>
+      match bool_of ex with
+      | Some ex => sx_bool (ident_match p i ex)
+      | None => sx_err "ident exact"
+      end
+  | _ => sx_err "ident"
+  end.
+
+Definition enc_mresult (r : mresult) : sexp :=
+  match r with
+  | MBool b => sx_bool b
+  | MPanic => Atom (s2b "panic")
+  | MUnsup => Atom (s2b "unsup")
+  end.
+
+(** (pmseq pattern exact0 ((ident exact) ...)): NewPatternMatcher then a query sequence *)
+Fixpoint pm_run (m : pmatcher) (qs : list (str * bool)) : list mresult :=
+  match qs with
+  | [] => []
+  | (i, ex) :: qs' => let '(r, m') := pm_match m i ex in r :: pm_run m' qs'
+  end.
+Definition dec_query (e : sexp) : option (str * bool) :=
+  match e with SList [Atom i; ex] => let? b := bool_of ex in Some (i, b) | _ => None end.
+Definition case_pmseq (l : list sexp) : sexp :=
+  match l with
+  | [Atom p; ex0; SList qs] =>
+      match bool_of ex0, map_opt dec_query qs with
+      | Some ex0, Some qs =>
+          match compile_pattern p ex0 with
+          | CNil => sx_tag "new-error" []
+          | CUnsup => sx_tag "unsup" []
+          | c => sx_tag "answers" (List.map enc_mresult (pm_run {| pm_pattern := p; pm_re := c; pm_exact := ex0 |} qs))
+          end
+      | _, _ => sx_err "pmseq fields"
+      end
+  | _ => sx_err "pmseq"
+  end.
+
+(** (strfun name arg): GoLib validation — to_lower, equal_fold (two args), fields, quote_meta *)
+Definition case_strfun (l : list sexp) : sexp :=
+  match l with
+  | [Atom f; Atom a] =>
+      if str_eqb f (s2b "to_lower") then Atom (str_to_lower a)
+      else if str_eqb f (s2b "fields") then SList (List.map Atom (ufields a))
+      else if str_eqb f (s2b "quote_meta") then Atom (quote_meta a)
+      else if str_eqb f (s2b "is_exported") then sx_bool (is_exported a)
+      else if str_eqb f (s2b "path_ext") then Atom (path_ext a)
+      else sx_err "strfun name"
+  | [Atom f; Atom a; Atom b] =>
+      if str_eqb f (s2b "equal_fold") then sx_bool (str_equal_fold a b)
+      else sx_err "strfun2 name"
+  | _ => sx_err "strfun"
+  end.
+
 Definition run_case (e : sexp) : sexp :=
   match e with
   | SList (Atom tag :: rest) =>
       if str_eqb tag (s2b "cli") then case_cli rest
       else if str_eqb tag (s2b "runcore") then case_runcore rest
       else if str_eqb tag (s2b "history") then case_history rest
+      else if str_eqb tag (s2b "ident") then case_ident rest
+      else if str_eqb tag (s2b "pmseq") then case_pmseq rest
+      else if str_eqb tag (s2b "strfun") then case_strfun rest
       else sx_err "unknown case tag"
   | _ => sx_err "case shape"
   end.
